@@ -67,6 +67,9 @@ let parse_op line =
   | "CANCEL" :: j :: _ -> OpCancel (n_of_int (ios j))
   | "FORGET" :: j :: _ -> OpForget (n_of_int (ios j))
   | "PRUNE" :: _ -> OpPrune
+  | "SUBMITW" :: n :: rq :: prio :: _ ->
+      (* `hq submit --wait`: for the state it is a plain submit of a new closed job with ids 0..n-1 *)
+      OpSubmit (None, List.init (ios n) n_of_int, None, parse_rq rq, z_of_int (ios prio), CUnl, false, None)
   | "DDOWN" :: w :: _ -> OpDDown (n_of_int (ios w), List.map n_of_int (parse_ints ',' (kv toks "bo")))
   | "DUP" :: w :: _ -> OpDUp (n_of_int (ios w))
   | "SCHED" :: _ ->
@@ -462,7 +465,17 @@ let tags_of (s : sys) (o : op) (outs : out list) (s' : sys) : string list =
               List.iter (fun ct -> if ct.ct_rv = None then add "sched-prefill" else if ct.ct_nodes <> [] then add "sched-mn" else add "sched-assign") cts
           | _ -> ())
         (new_down s s');
-      if List.length s'.s_core.c_redirects > List.length c.c_redirects then add "sched-redirect-recorded"
+      if List.length s'.s_core.c_redirects > List.length c.c_redirects then add "sched-redirect-recorded";
+      List.iter
+        (fun q ->
+          match q.q_ready with
+          | e :: _ ->
+              let st id = match find_task c.c_tasks id with Some t -> (match t.t_state with Waiting _ -> 0 | _ -> 1) | None -> 2 in
+              let nw = List.exists (fun id -> st id = 1) e.qe_ids and w = List.exists (fun id -> st id = 0) e.qe_ids in
+              if nw && w then add "sched-top-entry-mixed-retracting-waiting" else if nw then add "sched-top-entry-retracting-only";
+              if q.q_prefill <> None then add "sched-with-prefill-set"
+          | [] -> ())
+        c.c_queues
   | OpEnd (_, _, how) -> add (match how with EndOk -> "end-ok" | EndFail -> "end-fail" | EndFollowStop -> "end-follow-stop")
   | OpForget _ -> if List.length s'.s_hq.h_jobs < List.length s.s_hq.h_jobs then add "forget-done"
   | OpPrune -> add "prune"; if List.exists (fun j -> j.j_open && not (List.exists (fun (_, v) -> v = JW || v = JR) j.j_tasks)) s.s_hq.h_jobs then add "prune-with-idle-open-job"
@@ -509,6 +522,7 @@ let process_trace header lines =
   let tainted = ref [] in
   let excess = ref [] in
   let covtags = ref [] in
+  let pending_resp = ref None and wait_job = ref None and completed_model = ref [] in
   let cur_resp = ref "" in
   let check_state () =
     match (!state, !icore) with
@@ -585,6 +599,29 @@ let process_trace header lines =
                 let stop = try List.assoc t (snd (Hashtbl.find prev_wk (int_of_n w))) with Not_found -> "?" in
                 if how = EndOk || (how = EndFollowStop && stop = "-") then item (IEndOk (w, t))
             | _ -> ());
+            let pseudo = match words body with ("FLUSHDONE" | "WAITCHECK") :: _ -> true | _ -> false in
+            let is_submitw = match words body with "SUBMITW" :: _ -> true | _ -> false in
+            if (not !dead) && pseudo then begin
+              (* the held journal flush is answered / the waiting client is asked what it received:
+                 no step of the state machine; the specification is that the client that asked to
+                 be told receives the completion of its job whenever the job completed *)
+              print_endline line;
+              (match (words body, !state) with
+              | "FLUSHDONE" :: _, Some s ->
+                  (match !pending_resp with Some r -> print_endline r | None -> print_endline "= RESP submit ?false");
+                  pending_resp := None;
+                  print_snapshot s
+              | "WAITCHECK" :: _, Some s ->
+                  (match !wait_job with
+                  | Some j ->
+                      let c = if List.mem j !completed_model then 1 else 0 in
+                      Printf.printf "= WAIT job=%d completed=%d delivered=%d\n" j c c
+                  | None -> ());
+                  wait_job := None;
+                  print_snapshot s
+              | _ -> ())
+            end
+            else
             if not !dead then begin
               print_endline line;
               match (!state, o) with
@@ -594,6 +631,24 @@ let process_trace header lines =
                   | Ok (s', outs) ->
                       List.iter (fun t -> if not (List.mem t !covtags) then covtags := t :: !covtags) (tags_of s o (snd (s', outs)) s');
                       state := Some s';
+                      List.iter
+                        (function
+                          | OEv (EvCompleted j) ->
+                              completed_model := int_of_n j :: !completed_model;
+                              if !pending_resp <> None && !wait_job = Some (int_of_n j) && not (List.mem "wait-completed-while-flush-held" !covtags) then
+                                covtags := "wait-completed-while-flush-held" :: !covtags
+                          | _ -> ())
+                        outs;
+                      let outs =
+                        if is_submitw then begin
+                          (* the response is delivered when the held flush is answered *)
+                          List.iter (function OResp (RSubmitOk (j, _, _) as r) -> pending_resp := Some ("= " ^ resp_s r); wait_job := Some (int_of_n j) | _ -> ()) outs;
+                          print_endline "= RESP submitw pending";
+                          if not (List.mem "submit-wait" !covtags) then covtags := "submit-wait" :: !covtags;
+                          List.filter (function OResp _ -> false | _ -> true) outs
+                        end
+                        else outs
+                      in
                       print_outputs outs;
                       print_snapshot s'
                   | Disabled ->
@@ -639,6 +694,10 @@ let process_trace header lines =
                       List.iter (fun (_, deps) -> if List.exists (fun d -> List.mem (n_of_int j, d) !dead_tasks) deps then f12 := true) tasks;
                       item (ISubmitted (n_of_int j, tasks))
                   | _ -> item (ISubmitted (n_of_int j, List.map (fun i -> (n_of_int i, [])) fresh)))
+              | "WAIT" :: _ ->
+                  let c = kv (words body) "completed" and d = kv (words body) "delivered" in
+                  if c = "1" && d = "0" then add_mon ("M C13 FAIL wait-missed-completion " ^ kv (words body) "job");
+                  if c = "1" then (if not (List.mem "wait-job-completed-before-check" !covtags) then covtags := "wait-job-completed-before-check" :: !covtags)
               | "UP" :: _ -> cur_resp := body
               | "DOWN" :: w :: "compute" :: ts :: _ ->
                   item (IDownCompute (n_of_int (ios w), List.map (fun e -> parse_tid (List.hd (String.split_on_char ':' e))) (String.split_on_char ',' ts)))
